@@ -3,6 +3,7 @@
 #include <ctype.h>
 #include <errno.h>
 #include <stdlib.h>
+#include <string.h>
 #include "control.h"
 #include "netio.h"
 #include <qsmtpd/qsmtpd.h>
@@ -26,6 +27,7 @@ cb_nomail(const struct userconf *ds, const char **logmsg, enum config_domain *t)
 	int fd;
 	int i;
 	int codebeg;		/* message begins with reject code */
+	char code[11];		/* the reject code taken from the message */
 	const char *netmsg[] = { "550 5.7.1 ", NULL, NULL };
 
 	fd = getfile(ds, "nomail", t, 0);
@@ -37,6 +39,15 @@ cb_nomail(const struct userconf *ds, const char **logmsg, enum config_domain *t)
 	len = loadonelinerfd(fd, &rejmsg);
 	if (len == (size_t)-1)
 		return (errno != ENOENT) ? FILTER_ERROR : FILTER_DENIED_UNSPECIFIC;
+
+	/* The text is sent to the client: a CR (e.g. from a file with DOS line
+	 * endings) or another control character must not end up in the reply. */
+	for (size_t k = 0; k < len; k++) {
+		const unsigned char c = rejmsg[k];
+
+		if (((c < ' ') && (c != '\t')) || (c == 127))
+			rejmsg[k] = '?';
+	}
 
 	codebeg = (len > 10);
 
@@ -65,9 +76,18 @@ cb_nomail(const struct userconf *ds, const char **logmsg, enum config_domain *t)
 		}
 	}
 
-	netmsg[1] = rejmsg;
-	/* if codebeg do not add the generic error code */
-	errno = -net_writen(netmsg + !!codebeg);
+	if (codebeg) {
+		/* Do not add the generic error code. net_writen() needs the code in
+		 * a first string that fits into one line, the text itself may have
+		 * any length. */
+		memcpy(code, rejmsg, 10);
+		code[10] = '\0';
+		netmsg[0] = code;
+		netmsg[1] = rejmsg + 10;
+	} else {
+		netmsg[1] = rejmsg;
+	}
+	errno = -net_writen(netmsg);
 
 	free(rejmsg);
 
